@@ -34,6 +34,11 @@ JUNK += [('%s_first' % n, ch + 'abcd') for n, ch in _SINGLE] + [('%s_last' % n, 
 # a lone CR inside a line is deliberately not in the junk alphabet: treating it as an (old Mac) line end is legitimate
 
 
+# what the hexed_* payloads stand for, and payloads that are not text in utf-16 (odd number of bytes, a lone surrogate, a low surrogate first)
+HEXED_TEXT = {'hexed_empty': '', 'hexed_tab': 'ab\tc', 'hexed_bell': 'a\x07bc', 'hexed_lf': 'abc\n', 'hexed_crlf': 'abc\r\n', 'hexed_ls': 'ab\u2028c', 'hexed_nel': 'ab\x85'}
+HEX_BAD16 = {'hex_cut_multibyte': '$HEX[610062]', 'hex_lone_continuation': '$HEX[610000d86200]', 'hex_invalid_byte': '$HEX[00dc00d8]', 'hex_cut_4byte': '$HEX[61003dd8]'}
+
+
 def encodable(s, enc):
     try:
         s.encode(enc)
@@ -46,8 +51,12 @@ def must_hex(pw):
     return pw.startswith('$HEX[') and pw.endswith(']')
 
 
+PIECE = {'utf-16': 'utf-16-le', 'utf-32': 'utf-32-le'}        # encodings whose files start with ONE byte-order mark: lines are encoded without it
+BOM = {'utf-16': b'\xff\xfe', 'utf-32': b'\xff\xfe\x00\x00'}
+
+
 def hexform(pw, enc):
-    return '$HEX[' + pw.encode(enc).hex() + ']'
+    return '$HEX[' + pw.encode(PIECE.get(enc, enc)).hex() + ']'
 
 
 def base_lists(tier):
@@ -89,6 +98,7 @@ def variants(seq, enc):
     """yield (name, file bytes, prefixcount flag)"""
     distinct = runs(seq)
     n = len(distinct)
+    piece = PIECE.get(enc, enc)
     for nl_name, nl in (('LF', b'\n'), ('CRLF', b'\r\n')):
         for prefix in (False, True):
             for mask in itertools.product([False, True], repeat=n):
@@ -100,13 +110,14 @@ def variants(seq, enc):
                         break
                     body = hexform(pw, enc) if hx else pw
                     if prefix:
-                        lines.append(('%d %s' % (cnt, body)).encode(enc))
+                        lines.append(('%d %s' % (cnt, body)).encode(piece))
                     else:
-                        lines.extend([body.encode(enc)] * cnt)
+                        lines.extend([body.encode(piece)] * cnt)
                 if not ok:
                     continue
+                nlb = nl.decode('ascii').encode(piece)
                 yield ('%s %s hex=%s' % (nl_name, 'prefixcount' if prefix else 'repeated', ''.join('H' if h else 'p' for h in mask)),
-                       nl.join(lines) + nl, prefix)
+                       BOM.get(enc, b'') + nlb.join(lines) + nlb, prefix)
 
 
 def read_all(TFI, path, enc, prefix):
@@ -121,7 +132,7 @@ def shards(tier):
 
 def bounds(tier):
     return {'pool': POOL, 'base_list_lines': '<= %d distinct runs, multiplicities 1..3' % (3 if tier == 'thorough' else 2),
-            'encodings': ['utf-8', 'latin-1', 'cp1251'], 'junk_kinds': [j[0] for j in JUNK]}
+            'encodings': ['utf-8', 'latin-1', 'cp1251', 'utf-16'], 'undecodable_bytes_in': sorted(set(e for e, _ in ENC_JUNK)), 'junk_kinds': [j[0] for j in JUNK]}
 
 
 def run_long(tier, acc):
@@ -169,7 +180,7 @@ def run_seq(shard, tier, acc):
     for idx, seq in enumerate(base_lists(tier)):
         if idx % ns != si:
             continue
-        for enc in ('utf-8', 'latin-1', 'cp1251'):
+        for enc in ('utf-8', 'latin-1', 'cp1251', 'utf-16'):
             if not all(encodable(p, enc) for p in seq):
                 continue
             for name, data, prefix in variants(seq, enc):
@@ -216,7 +227,7 @@ def run_rules(shard, tier, acc):
     for idx, seq in enumerate(lists):
         if idx % ns != si:
             continue
-        for enc in ('utf-8', 'cp1251', 'latin-1'):
+        for enc in ('utf-8', 'cp1251', 'latin-1', 'utf-16'):
             if not all(encodable(p, enc) for p in seq):
                 continue
             if enc != 'utf-8' and not any(ord(c) > 127 for p in seq for c in p):
@@ -263,36 +274,45 @@ def run_junk(tier, acc):
     path = os.path.join(wd, 't.txt')
     bases = [['password', 'password', 'letmein'], ['пароль', 'Pass word', ' lead']]
     for seq in bases:
-        for enc in ('utf-8', 'cp1251'):
+        for enc in ('utf-8', 'cp1251', 'utf-16'):
             if not all(encodable(p, enc) for p in seq):
                 continue
-            clean = b'\n'.join(p.encode(enc) for p in seq) + b'\n'
+            piece = PIECE.get(enc, enc)
+            clean = BOM.get(enc, b'') + b''.join(p.encode(piece) + '\n'.encode(piece) for p in seq)
             ref_t, _ = train_bytes(wd, clean, enc, False, 'clean')
             for jname, junk in JUNK:
-                if isinstance(junk, dict):
+                if piece != enc and jname in HEXED_TEXT:
+                    # a $HEX payload is bytes in the file's encoding: the same text, hexed in this encoding
+                    jb = ('$HEX[' + HEXED_TEXT[jname].encode(piece).hex() + ']').encode(piece)
+                elif piece != enc and jname in HEX_BAD16:
+                    jb = HEX_BAD16[jname].encode(piece)
+                elif piece != enc and jname.startswith('hex'):
+                    continue
+                elif isinstance(junk, dict):
                     if enc not in junk:
                         continue
                     jb = junk[enc]
                 elif isinstance(junk, str):
                     if not encodable(junk, enc):
                         continue
-                    jb = junk.encode(enc)
+                    jb = junk.encode(piece)
                 else:
-                    jb = junk
+                    jb = junk if piece == enc else junk.decode('ascii').encode(piece)
                 for pos in range(len(seq) + 1):
                     for nl, hexmode in ((b'\n', 'plain'), (b'\r\n', 'plain'), (b'\n', 'first-hex'), (b'\n', 'all-hex')):
                         # the valid lines themselves in plain or $HEX form: state left behind by a decoded $HEX line must not change how junk is treated
                         lines = []
                         for li, p_ in enumerate(seq):
                             if hexmode == 'all-hex' or (hexmode == 'first-hex' and li == 0):
-                                lines.append(hexform(p_, enc).encode('ascii'))
+                                lines.append(hexform(p_, enc).encode(piece))
                             else:
-                                lines.append(p_.encode(enc))
+                                lines.append(p_.encode(piece))
                         lines.insert(pos, jb)
                         if hexmode == 'plain' and nl == b'\n':
                             # the same junk line on two adjacent lines (sorted lists with duplicates)
                             lines.insert(pos, jb)
-                        data = nl.join(lines) + nl
+                        nlb = nl.decode('ascii').encode(piece)
+                        data = BOM.get(enc, b'') + nlb.join(lines) + nlb
                         acc.evals += 1
                         acc.nontrivial += 1
                         case = {'layer': 'junk', 'base': seq, 'encoding': enc, 'junk': jname, 'position': pos, 'valid_lines': hexmode, 'file_hex': data.hex()}
